@@ -8,6 +8,10 @@ src = f"/tmp/seed/{prop}/{k}"
 dst = f"/verif/seeded/{prop}-{k}"
 log = f"/tmp/seedcheck/{prop}-{k}.log"
 ok = os.path.exists(log)
+logtext = open(log).read() if os.path.exists(log) else ""
+m = re.search(r"suite restricted to (\d+) affected packages", logtext)
+suite = (f"the existing tests of the {m.group(1)} packages that import a patched package (directly, transitively or from their tests) pass with the patch"
+         if m else "whole suite (go test ./...) passes with the patch")
 os.makedirs(dst, exist_ok=True)
 for f in ("patch.diff", "zz_seed_demo_test.go", "demo_path.txt", "notes.md"):
     if os.path.exists(os.path.join(src, f)):
@@ -19,7 +23,7 @@ meta = {
     "files_changed": files,
     "demo_dir": open(os.path.join(src, "demo_path.txt")).read().strip() if os.path.exists(os.path.join(src, "demo_path.txt")) else "",
     "needs_to_manifest": (notes[:1500]),
-    "confirmed_by": "tools/seedcheck.sh in a scratch worktree: demo passes on the unchanged tree, patch applies and builds, demo fails with the patch, whole suite (go test ./...) passes with the patch" if ok else "NOT independently confirmed",
+    "confirmed_by": "tools/seedcheck.sh in a scratch worktree: demo passes on the unchanged tree, patch applies and builds, demo fails with the patch, " + suite if ok else "NOT independently confirmed",
     "check_verdict": verdict,
     "check_report": report,
     "check_cmd": f"git -C /repo apply /verif/seeded/{prop}-{k}/patch.diff && ./check {prop} quick; git -C /repo checkout -- .",
